@@ -66,11 +66,22 @@ def run(ctx, chk):
     chk.rule("L1", "each I/O-performing public method acquires the endpoint mutex exactly once, outside any loop")
     chk.rule("L2", "every I/O call on the guarded state takes its receiver from that one guard")
     chk.rule("L3", "the guard is not dropped (scope end, mem::drop or move) on any path that still reaches an I/O call")
+    chk.rule("L5", "no function that locks the endpoint mutex is called while its guard is live (no self-deadlock)")
     chk.rule("L4", "no bypass: I/O methods of the guarded state are called only with a guard-derived receiver or from the guarded type itself; the socket is cloned only for the shutdown handle")
     run_on(fb, chk)
+    _siblings(fb, chk)
     n = lambda r: len([i for i in chk.instances if i[0] == r])
     chk.floor("L1", n("L1"), 50)
     chk.floor("L2", n("L2"), 80)
+
+
+def _siblings(fb, chk):
+    # a transaction is completed once started: the checks made after the request was written never refuse what the
+    # checks before the write accepted (size-bound agreement, C08/S9)
+    from vlint.report import Renamed
+    from . import c08
+    chk.rule("L6", "pre-checks on the reply path agree with the checks made before the request was written (C08/S9)")
+    c08.s9(fb, Renamed(chk, {"S9": ("L6", lambda k: "Frontend" in k or "Backend::" in k or "GpuBackend" in k)}))
 
 
 def thorough(ctx, chk):
@@ -160,6 +171,64 @@ def run_on(fb, chk, tag=""):
                       "the guard of %s is released at block(s) %s while an I/O call is still reachable (line %s): "
                       "another thread's request can be written between this call's request and its reply"
                       % (f.short, [b for b, _ in bad], [f.blocks[h[0]]["term"]["line"] for _b, h in bad]), f.loc())
+    # L5: no call that acquires the same mutex again while the guard is live (std Mutex is not re-entrant)
+    lockers = {}   # inner type -> {fn key} that acquire the mutex of that type and do not hand the guard out
+    for inner in guarded:
+        ks = set()
+        for g in fb.fns.values():
+            if any(_is_guard_ty(t.get("dty", ""), inner) for _b, t in g.calls()) and not _is_guard_ty(g.rec.get("sig_out") or "", inner):
+                ks.add(g.key)
+        # transitive callers inside the workspace
+        changed = True
+        while changed:
+            changed = False
+            for g in fb.fns.values():
+                if g.key in ks or _is_guard_ty(g.rec.get("sig_out") or "", inner):
+                    continue
+                if any(k in ks for k in fb.callees(g)):
+                    ks.add(g.key)
+                    changed = True
+        lockers[inner] = ks
+    n5 = 0
+    for f in fb.fns.values():
+        for inner in guarded:
+            acq = [(bb, t) for bb, t in f.calls() if _is_guard_ty(t.get("dty", ""), inner)]
+            if not acq:
+                continue
+            cfg = CFG(f)
+            dom = cfg.dominators()
+            m = must_of(fb, f)
+            for gbb, gt_ in acq:
+                n5 += 1
+                glocals = {gt_["dest"]["l"]}
+                for l, ds in m.sym.defs.items():
+                    for d in ds:
+                        if d[0] == "assign" and d[3]["k"] == "use" and d[3]["op"]["k"] == "move" \
+                                and d[3]["op"]["pl"]["l"] in glocals and not d[3]["op"]["pl"]["p"]:
+                            glocals.add(l)
+                        if d[0] == "call" and d[3] is not None and (callee_of(d[3]) or {}).get("name") in ("unwrap", "expect") and any(
+                                a["k"] == "move" and a["pl"]["l"] in glocals for a in d[3]["args"]):
+                            glocals.add(l)
+                drops = [bi for bi, b in enumerate(f.blocks) if not b["cleanup"] and b["term"]["k"] == "drop"
+                         and b["term"]["pl"]["l"] in glocals and not b["term"]["pl"]["p"]]
+                bad = []
+                for bb, t in f.calls():
+                    if bb == gbb or gbb not in dom.get(bb, ()):
+                        continue
+                    if any(d in dom.get(bb, ()) for d in drops):
+                        continue
+                    c = callee_of(t)
+                    if c is None:
+                        continue
+                    rk = resolved(c)["key"]
+                    if rk in lockers[inner]:
+                        bad.append((fb.fns[rk].short if rk in fb.fns else rk, t.get("line")))
+                chk.check(not bad, "L5", "%s%s@%d" % (tag, f.short, len([1 for b2, _ in acq if b2 <= gbb])),
+                          "no re-acquisition while the guard is live",
+                          "%s calls %s while it still holds the guard of the endpoint mutex: the callee locks the same "
+                          "(non re-entrant) mutex again, so the call never returns and every later call on any clone blocks"
+                          % (f.short, ", ".join("%s (line %s)" % b for b in bad)), f.loc(gt_["line"]))
+    chk.floor("L5", n5, 20)
     # L4: all call sites of I/O methods of guarded types
     for f in fb.fns.values():
         for bb, t in f.calls():
